@@ -191,15 +191,22 @@ class Graph:
         return [x for x in self.out[e["src"]] if self.action_key(self.edges[x]) == k]
 
 
-def cover_walks(g, uncovered, maxlen, rnd):
-    """walks (lists of edge ids) from the initial state that together execute every edge in `uncovered`"""
-    uncovered = set(uncovered)
+def cover_walks(g, uncovered, maxlen, rnd, banned=(), prefer=()):
+    """walks (lists of edge ids) from the initial state that together execute every edge in `uncovered`.
+    banned: edges the implementation is known not to take (outcomes of nondeterministic model steps it never chooses);
+    prefer: edges already executed once (known to be feasible) - used first to travel between states"""
+    uncovered = set(uncovered) - set(banned)
     todo = {n: [e for e in g.out[n] if e in uncovered] for n in g.nodes}
     for n in todo:
         rnd.shuffle(todo[n])
     succ = {}
-    for e in g.edges:
-        succ.setdefault(e["src"], {}).setdefault(e["dst"], e["id"])
+    for eid in prefer:
+        e = g.edges[eid]
+        succ.setdefault(e["src"], {}).setdefault(e["dst"], eid)
+    if not prefer:
+        for e in g.edges:
+            if e["id"] not in banned:
+                succ.setdefault(e["src"], {}).setdefault(e["dst"], e["id"])
 
     def nearest(cur):
         """shortest edge path from cur to a node that still has uncovered out-edges"""
@@ -242,7 +249,7 @@ def cover_walks(g, uncovered, maxlen, rnd):
             walk.append(eid)
             cur = g.edges[eid]["dst"]
         if not walk:
-            raise RuntimeError("edges unreachable from the initial state: %d" % len(uncovered))
+            break          # what is left cannot be reached along the allowed edges
         walks.append(walk)
         for n in list(todo):
             if todo[n] and not any(e in uncovered for e in todo[n]):
